@@ -328,7 +328,7 @@ PROPS = {
                 run=with_relaytcp(with_ledger_rt(with_server_trace(core_run(["MC_relay", "MC_relayB", "MC_v6", "MC_tcp"], ["GEN_relayA", "GEN_relayB", "GEN_relayD", "GEN_v6", "GEN_tcpA", "GEN_recycle"])))),
                 assumptions=BASE_ASSUME + ["the TCP clause (a peer connection is announced only with a live permission for its source IP, else closed silently) is decided on TurnTCP.tla"]),
     "C03": dict(title="state changes only with valid long-term credentials", level="model_checking",
-                run=core_run(["MC_auth", "MC_noauth", "MC_nonce"], ["GEN_auth", "GEN_noauth", "GEN_anon", "GEN_nonce", "GEN_users", "GEN_tcpB"]),
+                run=core_run(["MC_auth", "MC_noauth", "MC_nonce"], ["GEN_auth", "GEN_noauth", "GEN_anon", "GEN_nonce", "GEN_users", "GEN_tcpA", "GEN_tcpB"]),
                 assumptions=BASE_ASSUME + ["HMAC-SHA1/MD5/SHA256 are treated as uninterpreted injective functions: what is decided is which key and "
                                            "bytes are compared and when, for the credential-defect classes of TurnAuth.tla and the mutation classes of Nonce.tla",
                                            "nonce ages 3601..3659 s are a grey band (implementation granularity) that is never probed"]),
